@@ -1,7 +1,6 @@
 package checks
 
 import (
-	"bytes"
 	"fmt"
 	"io"
 	"sort"
@@ -96,9 +95,29 @@ func stackTop() string {
 }
 
 func countLines(src string) int {
-	n := bytes.Count([]byte(src), []byte("\n"))
-	if !strings.HasSuffix(src, "\n") {
-		n++
+	// line breaks as YAML counts them: LF, CR, CRLF and the Unicode breaks NEL, LS, PS
+	n := 0
+	rs := []rune(src)
+	for i := 0; i < len(rs); i++ {
+		switch rs[i] {
+		case '\r':
+			if i+1 < len(rs) && rs[i+1] == '\n' {
+				i++
+			}
+			n++
+		case '\n', '\u0085', '\u2028', '\u2029':
+			n++
+		}
+	}
+	if len(rs) == 0 {
+		return 1 // an empty file is reported at 1:1
+	}
+	if len(rs) > 0 {
+		switch rs[len(rs)-1] {
+		case '\n', '\r', '\u0085', '\u2028', '\u2029':
+		default:
+			n++
+		}
 	}
 	return n
 }
